@@ -1,4 +1,5 @@
 import Hifi.Lemmas.Duration
+import Hifi.Model.Epoch
 /-
   C14  floor / ceil / round snap to multiples of the step, on the correct side.
 
@@ -57,6 +58,111 @@ theorem sfloor_props (x s : Int) (hs : s ≠ 0) (h1 : DMIN ≤ x - x % s) (h2 : 
           rw [Int.mul_add] at this; omega
       omega
 
+/-- a positive multiple of `s` is at least `|s|` -/
+theorem mul_pos_ge_abs (s k : Int) (h0 : 0 < s * k) : (if s < 0 then -s else s) ≤ s * k := by
+  by_cases hs : s < 0
+  · rw [if_pos hs]
+    have hk : k ≤ -1 := by
+      by_cases hk : k ≤ -1
+      · exact hk
+      · exfalso
+        have h := Int.mul_le_mul_of_nonpos_left (a := s) (b := k) (c := 0) (by omega) (by omega)
+        omega
+    have h := Int.mul_le_mul_of_nonpos_left (a := s) (b := -1) (c := k) (by omega) hk
+    omega
+  · rw [if_neg hs]
+    have hk : 1 ≤ k := by
+      by_cases hk : 1 ≤ k
+      · exact hk
+      · exfalso
+        have h := Int.mul_le_mul_of_nonneg_left (a := k) (b := 0) (c := s) (by omega) (by omega)
+        omega
+    have h := Int.mul_le_mul_of_nonneg_left (a := 1) (b := k) (c := s) hk (by omega)
+    omega
+
+/-- absent saturation the spec ceil is floor + |s|: a multiple of the step, STRICTLY greater than x, at most
+    one step above it, and the LEAST multiple strictly greater than x (the reading of the property text:
+    for x itself a multiple, ceil x = x + |s|, not x) -/
+theorem sceil_props (x s : Int) (hs : s ≠ 0) (h1 : DMIN ≤ x - x % s)
+    (h2 : x - x % s + (if s < 0 then -s else s) ≤ DMAX) :
+    sceil x s = sfloor x s + (if s < 0 then -s else s) ∧
+    sceil x s % s = 0 ∧ x < sceil x s ∧ sceil x s ≤ x + (if s < 0 then -s else s) ∧
+    (∀ m, m % s = 0 → x < m → sceil x s ≤ m) := by
+  have hb := emod_bounds x s hs
+  have hx : x ≤ DMAX := by split at h2 <;> split at hb <;> omega
+  have hfp := sfloor_props x s hs h1 hx
+  have hf : sfloor x s = x - x % s := by
+    unfold sfloor; rw [if_neg hs]
+    unfold DMIN DMAX at *; simp only [NPCs_eq] at *
+    rw [clampD_mid] <;> omega
+  have hc : sceil x s = x - x % s + (if s < 0 then -s else s) := by
+    unfold sceil; rw [hf]
+    unfold DMIN DMAX at *; simp only [NPCs_eq] at *
+    rw [clampD_mid] <;> (split at h2 <;> split at hb <;> omega)
+  have e1 : x - x % s = s * (x / s) := by have := Int.mul_ediv_add_emod x s; omega
+  refine ⟨by rw [hc, hf], ?_, by rw [hc]; omega, by rw [hc]; omega, ?_⟩
+  · rw [hc, e1]
+    by_cases hsn : s < 0
+    · rw [if_pos hsn, show s * (x / s) + -s = s * (x / s - 1) by rw [Int.mul_sub]; omega]
+      exact Int.mul_emod_right s _
+    · rw [if_neg hsn, show s * (x / s) + s = s * (x / s + 1) by rw [Int.mul_add]; omega]
+      exact Int.mul_emod_right s _
+  · intro m hm hlt
+    have e2 : m = s * (m / s) := by have := Int.mul_ediv_add_emod m s; omega
+    have hpos : 0 < s * (m / s - x / s) := by rw [Int.mul_sub]; omega
+    have := mul_pos_ge_abs s (m / s - x / s) hpos
+    rw [Int.mul_sub] at this
+    rw [hc]; omega
+
+/-- absent saturation the spec round is one of floor and ceil; it is the floor exactly when x is closer to the
+    floor than half a step (2·(x − floor) < |s|), the ceil otherwise — so the tie 2·(x − floor) = |s| goes UP —
+    and it is a nearest multiple: no multiple of the step is closer to x -/
+theorem sround_props (x s : Int) (hs : s ≠ 0) (h1 : DMIN ≤ x - x % s)
+    (h2 : x - x % s + (if s < 0 then -s else s) ≤ DMAX) :
+    (sround x s = sfloor x s ↔ 2 * (x - sfloor x s) < (if s < 0 then -s else s)) ∧
+    (sround x s = sceil x s ↔ (if s < 0 then -s else s) ≤ 2 * (x - sfloor x s)) ∧
+    sround x s % s = 0 ∧
+    (∀ m, m % s = 0 → (if sround x s - x < 0 then -(sround x s - x) else sround x s - x) ≤ (if m - x < 0 then -(m - x) else m - x)) := by
+  have hb := emod_bounds x s hs
+  have hx : x ≤ DMAX := by split at h2 <;> split at hb <;> omega
+  have hfp := sfloor_props x s hs h1 hx
+  have hcp := sceil_props x s hs h1 h2
+  have hf : sfloor x s = x - x % s := by
+    unfold sfloor; rw [if_neg hs]
+    unfold DMIN DMAX at *; simp only [NPCs_eq] at *
+    rw [clampD_mid] <;> omega
+  have habs : 0 < (if s < 0 then -s else s) := by split <;> omega
+  have hr : sround x s = if 2 * (x - sfloor x s) < (if s < 0 then -s else s) then sfloor x s else sceil x s := by
+    unfold sround
+    have hcx : ¬ (sceil x s - x < 0) := by omega
+    rw [if_neg hcx]
+    by_cases h : 2 * (x - sfloor x s) < (if s < 0 then -s else s)
+    · rw [if_pos h, if_pos (by omega)]
+    · rw [if_neg h, if_neg (by omega)]
+  refine ⟨?_, ?_, ?_, ?_⟩
+  · rw [hr]; constructor
+    · intro h; by_cases hh : 2 * (x - sfloor x s) < (if s < 0 then -s else s)
+      · exact hh
+      · rw [if_neg hh] at h; omega
+    · intro h; rw [if_pos h]
+  · rw [hr]; constructor
+    · intro h; by_cases hh : 2 * (x - sfloor x s) < (if s < 0 then -s else s)
+      · rw [if_pos hh] at h; omega
+      · omega
+    · intro h; rw [if_neg (by omega)]
+  · rw [hr]; by_cases h : 2 * (x - sfloor x s) < (if s < 0 then -s else s)
+    · rw [if_pos h]; exact hfp.1
+    · rw [if_neg h]; exact hcp.2.1
+  · intro m hm
+    have hle := hfp.2.2.2 m hm
+    have hge := hcp.2.2.2.2 m hm
+    rw [hr]
+    by_cases hmx : m ≤ x
+    · have := hle hmx
+      split <;> split <;> split <;> omega
+    · have := hge (by omega)
+      split <;> split <;> split <;> omega
+
 /-- zero step yields zero -/
 theorem zero_step (x : Int) : sfloor x 0 = 0 ∧ sceil x 0 = 0 ∧ sround x 0 = 0 := by
   have h1 : sfloor x 0 = 0 := by unfold sfloor; simp
@@ -87,6 +193,88 @@ theorem d1_free_above_minus_century (d : Dur) (hd : d.Canon) (h : -NPCs ≤ d.va
   unfold Dur.d1class Dur.val valP at *
   simp only [NPC_eq, NPCs_eq, decide_eq_false_iff_not] at *
   omega
+
+/-- a sufficient, readable condition for the third hypothesis of `ceil_exact_partial` / `round_exact_partial`
+    (`d1class (floor d s) = false`): the SPEC floor is not more than a century below zero — e.g. d ≥ −1 century
+    and a step that divides a century, or any d ≥ 0 -/
+theorem floor_d1_free (d s : Dur) (hd : d.Canon) (hs : s.Canon)
+    (h1 : Dur.d1class d = false) (h2 : Dur.d1class s = false) (hf : -NPCs ≤ sfloor d.val s.val) :
+    Dur.d1class (Dur.floor d s) = false := by
+  have h := floor_spec d s hd hs h1 h2
+  exact d1_free_above_minus_century _ h.1 (by rw [h.2]; exact hf)
+
+/-- … and that third hypothesis cannot be dropped either: d = −1 century + 5 ns (outside D1) with the step
+    1.5 centuries (outside D1) has the floor −1.5 centuries = (−2 c, ½ c), which IS in D1, and `ceil` / `round`
+    then go through `total_nanoseconds` of that floor and miss the spec -/
+theorem ceil_round_floor_in_d1_counterexample :
+    Dur.d1class ⟨-1, 5⟩ = false ∧ Dur.d1class ⟨1, 1577880000000000000⟩ = false ∧
+    Dur.d1class (Dur.floor ⟨-1, 5⟩ ⟨1, 1577880000000000000⟩) = true ∧
+    Dur.ceil ⟨-1, 5⟩ ⟨1, 1577880000000000000⟩ ≠ .ok (Dur.fromTotal (sceil (Dur.mk (-1) 5).val (Dur.mk 1 1577880000000000000).val)) := by
+  decide +kernel
+
+/-! ### the Epoch wrappers (`Epoch::floor/ceil/round`, src/epoch/ops.rs), all nine time scales -/
+
+/-- the wrappers apply the `Duration` operation to the elapsed time in the epoch's own scale and keep the
+    scale — for EVERY epoch, step and time scale (ET and TDB included), no hypothesis -/
+theorem epoch_wrappers (e : Ep) (s : Dur) :
+    (Ep.floor e s).dur = Dur.floor e.dur s ∧ (Ep.floor e s).ts = e.ts ∧
+    Ep.ceil e s = (match Dur.ceil e.dur s with | .ok r => .ok ⟨r, e.ts⟩ | .err => .err | .panic => .panic) ∧
+    Ep.round e s = (match Dur.round e.dur s with | .ok r => .ok ⟨r, e.ts⟩ | .err => .err | .panic => .panic) :=
+  ⟨rfl, rfl, rfl, rfl⟩
+
+/-- hence the property's statement for epochs — PARTIAL on D1 like the `Duration` theorems: in every one of the
+    nine scales, for an elapsed time and a step outside D1 whose floor is outside D1 and no bound hit, the floored
+    epoch is never later than the epoch, the ceiled one is strictly later (exactly one |step| after the floored
+    one), the rounded one is the nearer of the two (ties up), all three keep the scale and lie a whole multiple of
+    the step away from that scale's reference epoch (value 0) — before the reference epoch as well as after it
+    (no sign condition on the elapsed time beyond D1) -/
+theorem epoch_floor_ceil_round_partial (e : Ep) (s : Dur) (he : e.dur.Canon) (hs : s.Canon) (hs0 : s.val ≠ 0)
+    (h1 : Dur.d1class e.dur = false) (h2 : Dur.d1class s = false) (h3 : Dur.d1class (Dur.floor e.dur s) = false)
+    (hlo : DMIN ≤ e.dur.val - e.dur.val % s.val)
+    (hhi : e.dur.val - e.dur.val % s.val + (if s.val < 0 then -s.val else s.val) ≤ DMAX) :
+    ∃ c r, Ep.ceil e s = .ok c ∧ Ep.round e s = .ok r ∧
+      (Ep.floor e s).ts = e.ts ∧ c.ts = e.ts ∧ r.ts = e.ts ∧
+      (Ep.floor e s).dur.val % s.val = 0 ∧ c.dur.val % s.val = 0 ∧ r.dur.val % s.val = 0 ∧
+      (Ep.floor e s).dur.val ≤ e.dur.val ∧ e.dur.val < c.dur.val ∧
+      c.dur.val = (Ep.floor e s).dur.val + (if s.val < 0 then -s.val else s.val) ∧
+      (r = Ep.floor e s ∨ r = c) ∧
+      (r = Ep.floor e s ↔ 2 * (e.dur.val - (Ep.floor e s).dur.val) < (if s.val < 0 then -s.val else s.val)) := by
+  have hb := emod_bounds e.dur.val s.val hs0
+  have hx : e.dur.val ≤ DMAX := by split at hhi <;> split at hb <;> omega
+  have hf := floor_spec e.dur s he hs h1 h2
+  obtain ⟨c, c1, c2, c3⟩ := ceil_spec e.dur s he hs h1 h2 h3
+  obtain ⟨r, r1, r2, r3⟩ := round_spec e.dur s he hs h1 h2 h3
+  have pf := sfloor_props e.dur.val s.val hs0 hlo hx
+  have pc := sceil_props e.dur.val s.val hs0 hlo hhi
+  have pr := sround_props e.dur.val s.val hs0 hlo hhi
+  refine ⟨⟨c, e.ts⟩, ⟨r, e.ts⟩, by unfold Ep.ceil; rw [c1], by unfold Ep.round; rw [r1], rfl, rfl, rfl, ?_⟩
+  have hfd : (Ep.floor e s).dur.val = sfloor e.dur.val s.val := hf.2
+  have hfe : Ep.floor e s = ⟨Dur.floor e.dur s, e.ts⟩ := rfl
+  simp only [hfd, c3, r3]
+  refine ⟨pf.1, pc.2.1, pr.2.2.1, pf.2.1, pc.2.2.1, pc.1, ?_, ?_⟩
+  · by_cases h : 2 * (e.dur.val - sfloor e.dur.val s.val) < (if s.val < 0 then -s.val else s.val)
+    · left
+      have : r = Dur.floor e.dur s := canon_unique _ _ r2 hf.1 (by rw [r3, hf.2]; exact pr.1.mpr h)
+      rw [hfe, this]
+    · right
+      have : r = c := canon_unique _ _ r2 c2 (by rw [r3, c3]; exact pr.2.1.mpr (by omega))
+      rw [this]
+  · rw [hfe, ← pr.1]
+    constructor
+    · intro h
+      have : r = Dur.floor e.dur s := by injection h
+      rw [← r3, this, hf.2]
+    · intro h
+      have : r = Dur.floor e.dur s := canon_unique _ _ r2 hf.1 (by rw [r3, hf.2]; exact h)
+      rw [this]
+
+-- non-vacuity: an ET epoch 30 years BEFORE its reference (J2000), step −90 minutes (negative step): every hypothesis holds
+example : (Dur.mk (-1) 2208988800000000000).Canon ∧ (Dur.mk (-1) 3155754600000000000).Canon ∧
+    (Dur.mk (-1) 3155754600000000000).val = -5400000000000 ∧
+    Dur.d1class ⟨-1, 2208988800000000000⟩ = false ∧ Dur.d1class ⟨-1, 3155754600000000000⟩ = false ∧
+    Dur.d1class (Dur.floor ⟨-1, 2208988800000000000⟩ ⟨-1, 3155754600000000000⟩) = false ∧
+    (Ep.floor ⟨⟨-1, 2208988800000000000⟩, .ET⟩ ⟨-1, 3155754600000000000⟩).ts = .ET := by
+  unfold Dur.Canon; simp only [NPC_eq]; decide +kernel
 
 /-- the D1 hypothesis cannot be dropped: floor((-2 c + 1 ns), 1 ns) must be the duration itself -/
 theorem floor_counterexample :
